@@ -1,6 +1,10 @@
 SPECIFICATION Spec
+CONSTANT NbK = 3
+CONSTANT SampleN = 60000
+CONSTANT InitVectors <- MCInitVectors
 INVARIANT TypeOK
 INVARIANT Progress
 INVARIANT M_NoPanic
 INVARIANT M_Returns
+INVARIANT M_NoStall
 CHECK_DEADLOCK FALSE
